@@ -777,7 +777,7 @@ def mutate_signed(rec, V, r, raw, chan_raw, kind, clause, allbits, other_channel
     bits = range(512) if allbits else sorted(r.sample(range(512), budget_bits))
     for b in bits:
         if b % 64 == 0 and rec.out_of_time():
-            return
+            return False
         V.judge(clause, 'sig_bit', flip(raw, soff + b // 8, b % 8), chan_raw, f'signature bit {b} flipped', dict(base_w, bit=b), kind, b)
     if allbits:
         rec.hit(f'{clause}.all_512_sig_bits')
@@ -800,7 +800,7 @@ def mutate_signed(rec, V, r, raw, chan_raw, kind, clause, allbits, other_channel
             picks = [(r.choice(positions), r.randrange(8)) for _ in range(budget_bits * (4 if allbits else 1))]
         for k, (p, b) in enumerate(picks):
             if k % 64 == 0 and rec.out_of_time():
-                return
+                return False
             mut = flip(raw, p, b)
             V.judge(clause, 'payload_bit', mut, chan_raw, f'claim payload byte {p - voff} bit {b} flipped',
                     dict(base_w, value_offset=p - voff, bit=b), kind, (p - voff) * 8 + b,
@@ -843,6 +843,7 @@ def mutate_signed(rec, V, r, raw, chan_raw, kind, clause, allbits, other_channel
     for oc in other_channels:
         V.judge(clause, 'other_channel_key' if clause == 'A3' else 'other_channel', raw, oc, 'validated against a channel with a different key',
                 base_w, kind)
+    return True
 
 
 def _null_mutation(V, raw, mut):
@@ -1182,7 +1183,10 @@ def _run_legacy(rec, case):
         others = [bytes.fromhex(q['channel_tx']) for qi, q in enumerate(pairs) if qi != pi]
         # deterministic partition of the bit positions over the shards: together the shards flip every bit
         sub = _ShardedMutations(V, part, parts)
-        mutate_signed(rec, sub, r, raw, chan_raw, name, 'A4', True, [], v1=(fmt == 'v1'), payload_all=True)
+        done = mutate_signed(rec, sub, r, raw, chan_raw, name, 'A4', True, [], v1=(fmt == 'v1'), payload_all=True)
+        # the shards together flip EVERY bit of the signature, the signed payload, the channel hash and the first input's outpoint
+        key = 'A4: every single bit of signature / payload / channel hash / first-input outpoint of the 3 main-net pairs (union of shards)'
+        rec.exhaustive[key] = rec.exhaustive.get(key, True) and bool(done)
         for oc in others:
             V.judge('A4', 'other_channel', raw, oc, 'validated against the channel of another pair', wit, name)
         # damaged channel key (bits of the X/Y coordinates inside the DER SubjectPublicKeyInfo)
